@@ -514,7 +514,18 @@ class DiagAnalysis:
         except Exception as e:
             return (False, "cannot analyse %s: %s" % (f.qn, e))
         good = {"E"} if mode == "diag" else {"E", "S"}
-        calls_getopt = any(n.get("k") == "CallExpr" and notpl(n.get("q") or "") in ("getopt_long", "getopt") for n in f.walk())
+        calls_getopt = False
+        for n in f.walk():
+            if n.get("k") == "CallExpr" and notpl(n.get("q") or "") in ("getopt_long", "getopt"):
+                # getopt prints its own message for '?' unless the option string starts with ':' (after an
+                # optional '+' or '-'), or opterr was cleared
+                a = call_args(n)
+                os_ = strip_all(a[2]) if len(a) > 2 else None
+                text = os_.get("s") if os_ is not None and os_.get("k") == "StringLiteral" else None
+                calls_getopt = text is not None and not text.lstrip("+-").startswith(":")
+        if calls_getopt and any(x.get("k") == "DeclRefExpr" and x.get("n") == "opterr" for g_ in self.prog.functions.values()
+                                for y in g_.walk() if y.get("k") in ("BinaryOperator",) and y.get("op") == "=" for x in walk(y["c"][0])):
+            calls_getopt = False
         for node, how in self.failure_points(f, kind, ignore):
             st = ps.before(node)
             if st is None:
